@@ -123,7 +123,7 @@ def ent_term(draw, ctx: Ctx, var: int, depth: int = 2):
 
 def int_term(draw, ctx: Ctx, var: int):
     e = ent_term(draw, ctx, var)
-    choices = ["a", "a", "b", "b", "val", "d"] + (["k"] if ctx.cfg.use_k else [])
+    choices = ["a", "a", "a", "b", "b", "b", "val", "val", "d", "d", "twin"] + (["k", "k"] if ctx.cfg.use_k else [])
     if ctx.min_tags > 0:
         choices += ["tag", "pick"]
     c = draw(st.sampled_from(choices))
@@ -131,6 +131,8 @@ def int_term(draw, ctx: Ctx, var: int):
         return ["attr", e, c]
     if c == "val":
         return ["call", e, "val", []]
+    if c == "twin":
+        return ["attr", ["call", e, "twin", []], "a"]      # the method constructs a @symbol instance
     if c == "d":
         return ["idx", ["attr", e, "d"], draw(st.sampled_from(["p", "q"]))]
     i = draw(st.integers(0, ctx.min_tags - 1))
@@ -182,6 +184,8 @@ def leaf(draw, ctx: Ctx, vars_: List[int]):
         kinds += ["big", "atleast", "starts", "tval", "tval"]
     if cfg.allow_preds:
         kinds += ["fpred1", "cpred1", "hastype"]
+    if cfg.allow_preds and cfg.allow_truth:
+        kinds += ["heavy"]
     kinds = [x for x in kinds if x not in cfg.exclude_leaves]
     k = draw(st.sampled_from(kinds))
     P = ctx.P
@@ -218,6 +222,8 @@ def leaf(draw, ctx: Ctx, vars_: List[int]):
                 ["const", enc(tuple(tup))]]
     if k == "big":
         return ["truth", ["call", ent_term(draw, ctx, x), "is_big", []]]
+    if k == "heavy":
+        return ["truth", ["call", ent_term(draw, ctx, x), "heavy", []]]     # the method calls a @predicate function
     if k == "atleast":
         return ["truth", ["call", ent_term(draw, ctx, x), "at_least", [draw(st.sampled_from(P["ints"]))]]]
     if k == "starts":
@@ -485,6 +491,9 @@ def query_case(draw, cfg: Cfg):
     # an evaluation abandoned after k results (the consumer stops, the iterator is closed) precedes the evaluations
     # that are compared: what a query returns must not depend on it (honoured by qcheck.run_query and by C01)
     case["abandon_first"] = draw(st.sampled_from([0, 0, 0, 1, 2]))
+    # where the results are requested: outside every block, or inside a symbolic_mode() / rule_mode() block that is open
+    # around the consumer (honoured by qcheck.run_query and by C01; what a query returns must not depend on it)
+    case["consume_in"] = draw(st.sampled_from([None, None, None, None, "query", "rule"]))
     if cond is not None and chance(draw, cfg.earlier_sharing[0], cfg.earlier_sharing[1]):
         e = earlier_queries_sharing_comparisons(draw, ctx, cond)
         if e:
